@@ -15,6 +15,10 @@ def gen(rng, kind, subset, obs_subset, hetero):
     cfg = dict(kind=kind, P=prand(rng, nv, 2, 3) or {(0,) * nv: 1}, q=prand(rng, nv, 2, 2) or {(0,) * nv: 1},
                plain=[dy(rng, 1, 3), dy(rng), dy(rng)], pts=[[dy(rng) for _ in range(nv)] for _ in range(n)], w=rng.randint(1, 4) / 2,
                batched={k: [dy(rng) for _ in range(n)] for k in subset}, hetero=(prand(rng, nv, 1, 2) or {(0,) * nv: 1}) if hetero else None)
+    cfg["own_kind"] = {k: rng.choice(["float", "float", "pyint", "intarray"]) for k in KEYS}
+    for j, k in enumerate(KEYS):
+        if cfg["own_kind"][k] != "float":
+            cfg["plain"][j] = float(rng.randint(1, 3))
     cfg["hetero2"] = (prand(rng, nv, 1, 2) or {(0,) * nv: 1}) if (hetero and rng.random() < 0.7) else None      # c := h2(p) * a + c (reads the caller's a)
     if rng.random() < 0.7 or obs_subset:
         cfg["obs"] = dict(inputs=[[dy(rng) for _ in range(nv)] for _ in range(n)], vals=[float(rng.randint(-2, 2)) for _ in range(n)], w=rng.randint(1, 4) / 2,
@@ -31,7 +35,15 @@ def build(cfg):
     from jinns.data._Batchs import ODEBatch, PDEStatioBatch
     kind = cfg["kind"]
     u = mk([cfg["P"]], "ODE" if kind == "ode" else "statio_PDE", output_transform=lambda i, o, p: o + p.eq_params["b"])
-    P = Params(nn_params=u.init_params(), eq_params={k: jnp.array(v) for k, v in zip(KEYS, cfg["plain"])})
+    # the caller's own value of a key that the batch / the observations override may be of any type (a Python
+    # int placeholder, an integer array, a float array): sample i must still see row i unchanged
+    def own(k, v):
+        kind = (cfg.get("own_kind") or {}).get(k, "float")
+        overridden = k in cfg["batched"] or k in ((cfg.get("obs") or {}).get("eq") or {})
+        if not overridden or kind == "float" or v != round(v):       # (terms that do not override the key still read this value: it is integral then)
+            return jnp.array(v)
+        return int(round(v)) if kind == "pyint" else jnp.array(int(round(v)))
+    P = Params(nn_params=u.init_params(), eq_params={k: own(k, v) for k, v in zip(KEYS, cfg["plain"])})
     q, hp, hp2 = cfg["q"], cfg["hetero"], cfg.get("hetero2")
     col = lambda rows: jnp.array(rows)[:, None]
     pb = {k: col(v) for k, v in cfg["batched"].items()} or None
@@ -141,7 +153,7 @@ def generate(tier, seed, casedir, variant):
                     cid += 1
     write_cases(casedir, "C12", "R_C12", variant, cases, chunk=100)
     return dict(meta=meta, oracle_violations=viol, evaluations=len(cases), distinct_nontrivial=len(nontrivial), samples=samples, distribution=dist,
-                rule="every subset of the equation parameters {a, b, c} as batched keys x observed-parameter subsets, for the ODE and the stationary loss (network reads b, equation reads a and c), with and without heterogeneity maps (a := h(p) a; c := h2(p) a + c, reading the caller's a; the equation's evaluate is also called directly), batches of 1..4 points; dynamic, initial-condition and observation terms compared; the caller's parameters must be left unchanged; non-trivial = at least one batched key and more than one sample",
+                rule="every subset of the equation parameters {a, b, c} as batched keys x observed-parameter subsets, for the ODE and the stationary loss (network reads b, equation reads a and c), with and without heterogeneity maps (a := h(p) a; c := h2(p) a + c, reading the caller's a; the equation's evaluate is also called directly), batches of 1..4 points; dynamic, initial-condition and observation terms compared; the caller's parameters must be left unchanged; the caller's own value of an overridden key is a float array, a Python int or an integer array; non-trivial = at least one batched key and more than one sample",
                 oracle_checks=len(cases))
 
 
